@@ -78,28 +78,25 @@ Proof. reflexivity. Qed.
    (d412e0d3e; `op_cols` of the model follows the flag) *)
 Lemma grant_whole_table_wins : parser_grant_whole_table_wins = true.
 Proof. reflexivity. Qed.
+(* IWorkspace.Ancestors() enumerates the direct ancestors only (F33, 7b472983d) *)
+Lemma ancestors_direct : parser_ancestors_direct = true.
+Proof. reflexivity. Qed.
 
 (* The faithful model of the Go compiler against the spec - the link theorem: for every well-formed
    schema the model compiles it and the oracle `satisfies` accepts the model's output (so the
-   property holds on every input on which compiler and model agree).
-
-   Eleven points at which compilers of this family have differed are read off the source; ten of them
-   the source does the spec's way (side conditions above).  One is an open finding (F33: Ancestors()
-   enumerates indirect ancestors as direct ones): for it the theorem carries the hypothesis "the
-   compiler does it the spec's way, or the schema stays clear of the shape". *)
+   property holds on every input on which compiler and model agree).  No hypothesis beyond `wf a`:
+   the eleven points at which compilers of this family have differed are read off the source, and the
+   source does all eleven the spec's way (side conditions above; a regression flips a flag and breaks one). *)
 Theorem go_model_meets_spec :
   forall a, wf a = true ->
-  (parser_ancestors_direct = true \/ no_indirect_anc a = true) ->   (* F33 *)
-  exists d, compile a Go = Some d /\ satisfies (Trace a (render a) (Compiled d true true (direct_anc_shown a Go))) = true.
+  exists d, compile a Go = Some d /\ satisfies (Trace a (render a) (Compiled d true true true)) = true.
 Proof.
-  exact (fun a Hwf => go_meets_spec_within_proved uniques_numbered_per_type nested_tables_inherit view_refs_recorded a Hwf
-                        (or_introl inherited_grants_once) (or_introl lookup_respects_package)
-                        (or_introl inherits_in_own_package) (or_introl descriptor_refs_analysed)
-                        (or_introl inherited_nested_in_own_package) (or_introl diamond_below_heir_accepted)
-                        (or_introl grant_inherited_columns)).
+  exact (go_meets_spec_plain_proved uniques_numbered_per_type nested_tables_inherit view_refs_recorded
+                                    inherited_grants_once lookup_respects_package inherits_in_own_package descriptor_refs_analysed
+                                    inherited_nested_in_own_package diamond_below_heir_accepted grant_inherited_columns ancestors_direct).
 Qed.
 
-(* the form the theorem had while the repairs of F26..F32 were missing: each hypothesis reads "the
+(* the form the theorem had while the repairs of F26..F33 were missing: each hypothesis reads "the
    compiler does it the spec's way, or the schema stays clear of the shape" - the hypotheses the proof
    forced were the findings *)
 Theorem go_model_meets_spec_within :
@@ -222,7 +219,7 @@ Example shapes_of_the_probes_F30_F31_F32 :
      | _ => False end.
 Proof. vm_compute. repeat split. Qed.
 
-(* F33 (open): W INHERITS A, A INHERITS Base.  The model's workspace item carries all ancestors; that
+(* F33 (repaired since, 7b472983d): W INHERITS A, A INHERITS Base.  The model's workspace item carries all ancestors; that
    Ancestors() of the compiled W is [A] and not [A; Base] is the separate observation `direct_anc`:
    a compiler that does not keep them apart shows `false` and the oracle refuses the trace. *)
 Definition a_f33 : schema := [(Pkg "app1"%string [[(Ws "Base"%string true [] None []); (Ws "A"%string true [(QR "app1"%string "Base"%string)] None []); (Ws "W"%string false [(QR "app1"%string "A"%string)] None [])]])].
